@@ -19,6 +19,7 @@ Contract(
     target=f"{NODE}::EdgeRegister.register",
     params={"self": Ref("EdgeRegister"), "node": Ref("TestNode"), "worker": Ref("TestWorker")},
     overrides={"TestNode.bridged_form": bridged_form},
+    stubs={"TestNode.bridged_form": (bridged_form_fn, "TestNode", STR, "property")},
     ensures=[
         ("counts_exact",
          f"forall([STR, STR], lambda f, w: ({COUNT}) == old({COUNT}) + (1 if f == node.bridged_form and w == worker.id else 0))"),
@@ -30,4 +31,37 @@ Contract(
     props=["C16"],
     extra_names={"STR": STR, "INT": INT},
     assumes=["TestNode.bridged_form is a pure function of the node (summary); strings are unicode sequences"],
+)
+
+IN_REG = "(f in self._registry and w in self._registry[f])"
+
+Contract(
+    target=f"{NODE}::EdgeRegister.get_workers",
+    name="EdgeRegister.get_workers[node]",
+    params={"self": Ref("EdgeRegister"), "node": Ref("TestNode")},
+    overrides={"TestNode.bridged_form": bridged_form},
+    stubs={"TestNode.bridged_form": (bridged_form_fn, "TestNode", STR, "property")},
+    ensures=[
+        ("exact", "forall(STR, lambda w: (w in result) == "
+                  "(node.bridged_form in self._registry and w in self._registry[node.bridged_form]))"),
+    ],
+    frame=[],
+    props=["C16"],
+)
+
+Contract(
+    target=f"{NODE}::EdgeRegister.get_workers",
+    name="EdgeRegister.get_workers[all]",
+    params={"self": Ref("EdgeRegister")},
+    requires=["wf_map(self._registry)"],
+    loops={0: {
+        "invariants": ["forall(STR, lambda w: (w in worker_keys) == exists(range(0, _i), lambda j: "
+                       "w in self._registry[keys_of(self._registry)[j]]))"],
+        "kinds": {"worker_keys": SetK(STR)},
+    }},
+    ensures=[
+        ("exact", f"forall(STR, lambda w: (w in result) == exists(STR, lambda f: {IN_REG}))"),
+    ],
+    frame=[],
+    props=["C16"],
 )
